@@ -58,8 +58,10 @@ def cfg(scn, script, plan=(), present=ALL_CBS, rfail=0, rcancel=0, init_rows=0, 
             "present": list(present), "rfail": rfail, "rcancel": rcancel, "initRows": init_rows}
 
 
-def scenario(sid, c, sched="", break_at=-1, rev=54460, compression="disabled", otel=False, sweep="", stride=1, phase=0):
+def scenario(sid, c, sched="", break_at=-1, rev=54460, compression="disabled", otel=False, sweep="", stride=1, phase=0, rows_per=0):
     d = {"id": sid, "cfg": c, "breakAt": break_at, "sched": sched, "rev": rev, "compression": compression, "otel": otel}
+    if rows_per:
+        d["rowsPer"] = rows_per
     if sweep:
         d.update({"sweep": sweep, "stride": stride, "phase": phase})
     return d
@@ -193,7 +195,7 @@ def replay_scenario(begin):
     c = dict(begin["cfg"])
     c.pop("wbreak", None)
     return {"id": begin["id"] + "#re", "cfg": c, "breakAt": begin.get("breakAt", -1), "sched": begin.get("sched", ""),
-            "rev": begin.get("rev", 54460), "compression": begin.get("compression", "disabled")}
+            "rev": begin.get("rev", 54460), "compression": begin.get("compression", "disabled"), "rowsPer": begin.get("rowsPer", 0)}
 
 
 def check_and_report(run, pid, drv, scenarios, name, keyprefix=""):
